@@ -39,6 +39,10 @@ THEOREM_RE = re.compile(r'^\s*(Theorem|Lemma|Example|Corollary|Fact|Remark|Propo
                         re.M)
 
 
+# a process whose preferred text encoding is not UTF-8 (legacy locale, Windows code page)
+C_LOCALE = {'LC_ALL': 'C', 'LANG': 'C', 'PYTHONUTF8': '0', 'PYTHONCOERCECLOCALE': '0'}
+
+
 def impl_env():
     env = dict(os.environ)
     env['PYTHONPATH'] = f"{REPO}:{VERIF / 'harness'}"
@@ -353,7 +357,7 @@ class Ctx:
                                     model=model_obs, detail=detail))
 
     # -- implementation runner ------------------------------------------------
-    def run_impl(self, cases, func, shards=None, timeout=1200, per_process=False):
+    def run_impl(self, cases, func, shards=None, timeout=1200, per_process=False, env_extra=None):
         """Run harness/impl_<pid>.<func>(case) on every case in child processes
         (PYTHONPATH=<repo>). Returns the list of observations (same order)."""
         if not cases:
@@ -369,7 +373,7 @@ class Ctx:
             fout = self.work / f'impl_out_{func}_{k}.json'
             fin.write_text(json.dumps([cases[i] for i in part]))
             p = subprocess.Popen([PY, str(VERIF / 'harness/implrun.py'), self.pid, func,
-                                  str(fin), str(fout)], env=impl_env(),
+                                  str(fin), str(fout)], env=dict(impl_env(), **(env_extra or {})),
                                  stdout=subprocess.PIPE, stderr=subprocess.STDOUT, text=True,
                                  cwd=str(self.work))
             procs.append((part, fout, p))
@@ -398,7 +402,7 @@ class Ctx:
         dead = [i for i, o in enumerate(obs) if isinstance(o, dict) and o.get('runner_died')]
         if dead and not per_process and len(dead) <= 400:
             redo = self.run_impl([cases[i] for i in dead], func, shards=len(dead), timeout=timeout,
-                                 per_process=True)
+                                 per_process=True, env_extra=env_extra)
             for i, o in zip(dead, redo):
                 obs[i] = o
         return obs
